@@ -609,6 +609,33 @@ def run_memory(ctx, P, cg):
                         fld, a_fmt(cur)), pe)
     if min(seen.values()) < 1:
         raise AnalysisBroken("alloc_compression: inflateInit2/deflateInit2 calls not found: %s" % seen)
+    # (d) context takeover: the deflater ends a message with a FULL flush exactly when server_no_context_takeover was
+    #     negotiated, the inflater finishes the stream exactly when client_no_context_takeover was
+    for fkey, callee, flag, const_name, argi in (("compression.c:websocket_compress", "deflate", "server_no_context_takeover", "Z_FULL_FLUSH", 1),
+                                                 ("compression.c:private_decompress", "inflate", "client_no_context_takeover", "Z_FINISH", 1)):
+        g2 = P.fn(fkey)
+        want = Q.macro(P, "compression.c", const_name)
+        if want is None:
+            raise AnalysisBroken("macro %s not found" % const_name)
+        nsite = 0
+        badv = None
+        for v in Q.path_views(ctx, P, g2):
+            last = None   # polarity of the most recent test of the flag on the way to the call
+            for bi, (b, atom, pol) in enumerate(v.path):
+                if atom is not None and atom[0] == "truth" and Q.mentions(atom[1], lambda x: x[0] == "field" and x[3] == flag):
+                    last = pol
+                for i in g2.blocks[b]:
+                    if i.op == "call" and i.callee and P.srcname_of(i.callee) == callee:
+                        c = P.const_int(i.a[argi])
+                        if c is None:
+                            c = P._resolve_const(g2, i.a[argi], v.envs()[bi])
+                        nsite += 1
+                        if c is None or last is None or (c == want) != last:
+                            badv = (v, c)
+        A.need("C19.7 R-PAIR", g2, "flush-mode-follows:" + flag, badv is None and nsite > 0,
+               "%s() is called with flush mode %s on a path where %s is %s: the peer that was promised (or promised) to drop its "
+               "context after every message cannot decode the next one" %
+               (callee, badv[1] if badv else "?", flag, "not what selects it"), None)
     A.flush()
     ctx.floor("C19.7 R-PAIR", 2)
     ctx.floor("C19.3 R-BOUND", 3)
